@@ -45,6 +45,6 @@ C03Run(run) ==
               /\ (Placement(run.steps[lastC - 1].world) # Placement(run.steps[lastC].world) \/ run.steps[lastC - 1].world.nsh # run.steps[lastC].world.nsh)
             THEN {[f |-> "converged-state-changed-by-a-further-cycle", at |-> lastC]} ELSE {})
      \cup {[f |-> "gap", t |-> t, at |-> k] : <<t, k>> \in
-             {<<t, k>> \in TargetsW(wend) \X (2..n) : run.steps[k].a \notin {"shrink", "recreate"}    \* losing a pod with its volume is the fault itself
+             {<<t, k>> \in TargetsW(wend) \X (2..n) : run.steps[k].a \notin {"shrink", "recreate", "place"}    \* losing a pod with its volume is the fault itself
                                                         /\ t \in Gap(run.steps[k - 1].world, run.steps[k].world)}}
 =============================================================================
